@@ -357,6 +357,7 @@ def run(ctx):
     rule_bounded_read(ctx, cd)
     rule_repr_err(ctx, cd)
     rule_consumed(ctx, cd)
+    _codec.rule_bulk_advance(ctx, cd, "des", "R-C02-CONSUMED")
     C01.rule_errprop(ctx, cd, "des", "R-C02-ERRPROP")
     _codec.rule_zero_cost(ctx, pyfront.PyIndex(ctx.root), "R-C02-ZEROCOST")
     _codec.rule_std_width(ctx, pyfront.PyIndex(ctx.root), "R-C02-STDWIDTH")
